@@ -307,6 +307,9 @@ func (ps *sparser) primary() SExpr {
 		case "nil":
 			return SNil{}
 		case "old":
+			if !ps.isOp("(") {
+				return SIdent{t.s} // a variable that happens to be called old
+			}
 			ps.expectOp("(")
 			x := ps.expr()
 			ps.expectOp(")")
